@@ -223,11 +223,22 @@ pub fn stats_identical(a: &[(Stat, f64)], b: &[(Stat, f64)]) -> Option<(Stat, f6
         return Some((Stat::Mean, a.len() as f64, b.len() as f64));
     }
     for (x, y) in a.iter().zip(b.iter()) {
-        if x.0 != y.0 || !same_bits(x.1, y.1) {
+        if x.0 != y.0 || !same_stat(x.0, x.1, y.1) {
             return Some((x.0, x.1, y.1));
         }
     }
     None
+}
+
+/// Bit-for-bit equality of one statistic. Exception: which of -0.0 / +0.0 `f64::min` and
+/// `f64::max` return for a tie is left unspecified by Rust (and may differ between two
+/// inlined call sites of the same source line), so for Min/Max the two zeros are the same
+/// number.
+pub fn same_stat(stat: Stat, a: f64, b: f64) -> bool {
+    if matches!(stat, Stat::Min | Stat::Max) && a == 0.0 && b == 0.0 {
+        return true;
+    }
+    same_bits(a, b)
 }
 
 macro_rules! scalar_ingest {
